@@ -8,7 +8,8 @@ import (
 
 var xmlKeyNames = []string{"a", "b", "c", "d", "k1", "k2", "item", "x-y", "Z"}
 
-var someFloats = []float64{0, 1, -1, 0.5, 3.14159, 1e21, 1e-7, 123456789, -2.5e-3, 1e6, 100}
+// incl. the boundaries where %v / strconv switch to exponent form, the largest exact integer, a denormal and the extremes
+var someFloats = []float64{0, 1, -1, 0.5, 3.14159, 1e21, 1e-7, 123456789, -2.5e-3, 1e6, 100, 1e20, 123456789012345680000, 1e-6, 1e-5, 9007199254740992, 9007199254740993, 5e-324, 1.7976931348623157e308, -1e21, 0.1, 1.0000000000000002}
 
 // VGen controls the value generator.
 type VGen struct {
